@@ -240,10 +240,13 @@ def snapshot_loops(it, dom, pick=None, prefix='post_'):
         if pick is not None and not pick(node):
             return False
         snaps.append(LoopSnap(node, dict(frame.env), list(it.conds)))
+        from ..core.interp import DictV
         for st in node.body:
             for n in ast.walk(st):
                 if isinstance(n, ast.Name) and isinstance(n.ctx, ast.Store):
                     frame.env[n.id] = dom.sym(prefix + n.id)
+                elif isinstance(n, ast.Subscript) and isinstance(n.value, ast.Name) and isinstance(frame.env.get(n.value.id), DictV):
+                    frame.env[n.value.id].open = True          # a dict the skipped loop reads with default / fills: its keys are not known
         if isinstance(node, ast.For):
             for n in ast.walk(node.target):
                 if isinstance(n, ast.Name):
